@@ -229,7 +229,14 @@ def native_confirm(task, viol):
                 return True, 'native run with chaos seed %d failed rc=%s %s' % (seed * 104729, n2['rc'], n2['stderr'][-300:].replace('\n', ' | '))
         return False, 'native run completed (7 attempts, 6 with sleep-perturbed schedules)'
     if kind == 'assert':
-        return viol['msg'] in nr['asserts'], 'native asserts: %r' % nr['asserts'][:4]
+        if viol['msg'] in nr['asserts']:
+            return True, 'native asserts: %r' % nr['asserts'][:4]
+        if 'vp_yield' in task.text:
+            # time-dependent behaviour (timed waits): let the slow producer / consumer pause for more than a second
+            n2 = native_run(task.text, task.entry, viol['inputs'], timeout=120, env_extra={'VP_YIELD_MS': '1300'})
+            if viol['msg'] in n2['asserts']:
+                return True, 'native asserts (pauses of 1.3 s at the yield points): %r' % n2['asserts'][:4]
+        return False, 'native asserts: %r' % nr['asserts'][:4]
     # judge-produced violation: re-judge the concrete exports
     if task.native_judge is None:
         return False, 'no native judge'
@@ -368,6 +375,9 @@ def run_property(pid, tasks, tier, seed, meta):
         for v in r['violations']:
             if t.kinds is not None and v['kind'] not in t.kinds:
                 continue
+            mf = t.opts.get('msg_filter')
+            if mf and v['kind'] == 'assert' and mf not in v['msg']:
+                continue
             mp = t.opts.get('msg_prefix')
             if mp and v['kind'] == 'assert' and not v['msg'].startswith(tuple(mp)) and ':' in v['msg'][:5]:
                 continue
@@ -409,6 +419,14 @@ def run_property(pid, tasks, tier, seed, meta):
     unconfirmed = []
     per_task_count = {}
     max_replays = int(os.environ.get('VERIF_MAX_REPLAYS', '12'))
+    # replay budget is spread over the kinds of counterexample (a flood of one kind must not starve another)
+    kinds_seen = {}
+    order = []
+    for item in new_viol:
+        kd = item[1]['kind']
+        kinds_seen[kd] = kinds_seen.get(kd, 0) + 1
+        order.append((kinds_seen[kd], len(order), item))
+    new_viol = [it for _, _, it in sorted(order, key=lambda z: (z[0], z[1]))]
     for t, v, k in new_viol:
         c = per_task_count.get(t.tid, 0)
         if c >= 2 or len(confirmed) + len(unconfirmed) >= max_replays:
